@@ -432,6 +432,7 @@ func c03Reconfig(c *Ctx) {
 			return
 		}
 		epochs := 2 + r.IntN(3)
+		var addedLong, oldTTL time.Duration
 		var epochRates [][]rateSpec
 		nontrivial := 0
 		for e := 0; e < epochs; e++ {
@@ -445,9 +446,14 @@ func c03Reconfig(c *Ctx) {
 					}
 					rs2[k] = rateSpec{x.Period, avg, 1 + r.Int64N(5*avg)}
 				}
-				if len(rs2) < 3 && r.IntN(4) == 0 { // a further period
-					p := pick(r, []time.Duration{3 * time.Second, 7 * time.Second, 30 * time.Second})
+				if len(rs2) < 3 && r.IntN(3) == 0 { // a further period
+					p := pick(r, []time.Duration{3 * time.Second, 7 * time.Second, 30 * time.Second, 10 * time.Minute, time.Hour})
 					avg := int64(1 + r.IntN(10))
+					if p >= 10*time.Minute {
+						avg = int64(1 + r.IntN(3))
+					}
+					oldTTL = rateTTL(rs2)
+					addedLong = p
 					dup := false
 					for _, x := range rs2 {
 						dup = dup || x.Period == p
@@ -468,6 +474,24 @@ func c03Reconfig(c *Ctx) {
 			epochRates = append(epochRates, rs)
 			epochStart := now()
 			hist := c03GenHistory(r, rs, nsrc, 600+r.IntN(1200))
+			if addedLong > 0 && rateTTL(rs) > oldTTL+2*time.Second {
+				// a longer period has just been switched on: one request, then silence for a little longer than the source
+				// was remembered under the OLD rates (but far shorter than under the new ones), then a burst
+				var mb, lb int64 = 1 << 62, 0
+				for _, x := range rs {
+					mb = min(mb, x.Burst)
+					if x.Period == addedLong {
+						lb = x.Burst
+					}
+				}
+				pre := []c03Req{{0, 0, min(mb, 2)}, {oldTTL + time.Second, 0, 1}}
+				for k := int64(0); k < min(lb, 60)+2; k++ {
+					pre = append(pre, c03Req{0, 0, 1})
+				}
+				hist = append(pre, hist...)
+				c.Count("longer_period_switched_on_then_idle", 1)
+			}
+			addedLong = 0
 			logs := make([][]admitEv, nsrc)
 			var minBurst int64 = 1 << 62
 			for _, x := range rs {
